@@ -16,9 +16,11 @@ INVARIANT TypeOK
 INVARIANT NfeatOfLastFit
 INVARIANT ThresholdNeedsFit
 INVARIANT FitThresholdIsCurrent
+INVARIANT PrepOnlyWhenFitted
 PROPERTY OnlyFitChangesModel
 PROPERTY OnlyThreeActionsChangeThreshold
 PROPERTY OnlySetParamsChangesParams
+PROPERTY OnlyFitAndCalibrateChangePreprocessorInForce
 PROPERTY HandlesImmutable
 PROPERTY ObjectsNeverDisappear
 PROPERTY FitIsHistoryIndependent
